@@ -218,11 +218,17 @@ func Harness_NS_Feasible() {
 // Harness_NS_Optimal: the whole real execNetworkSimplex without balancing and with an iteration
 // budget (28*100) far beyond the engine's loop bound - a run that would only end at the cap is cut
 // by an unwinding query instead of being judged - on a connected DAG cube with SYMBOLIC minimum
-// lengths (0..2, unit weights): no feasible layering alt[] (solver variables) is cheaper.
+// lengths (0..2; unit weights, or weights 1..2 when SYMW = 1): no feasible layering alt[] (solver
+// variables) has a smaller weighted total length.
 func Harness_NS_Optimal() {
 	g, nodes := vhGraph()
+	symw := vhConst("SYMW") == 1
 	for _, e := range g.Edges {
 		e.Delta = vhInt("delta", 0, 2)
+		if symw {
+			// weights 1..2: a weight-2 edge is a pair of parallel edges; the NS positioner runs this code with weights 1, 2, 8
+			e.Weight = vhInt("weight", 1, 2)
+		}
 	}
 	execNetworkSimplex(g, graph.Params{NetworkSimplexThoroughness: 28, NetworkSimplexMaxIterFactor: 100, NetworkSimplexBalance: 0})
 	vhReach("returned")
@@ -233,12 +239,17 @@ func Harness_NS_Optimal() {
 	total, totalAlt := 0, 0
 	feasible := true
 	for _, e := range g.Edges {
-		total += e.To.Layer - e.From.Layer
 		a, b := alt[vhNodeIdx(nodes, e.From)], alt[vhNodeIdx(nodes, e.To)]
 		if b-a < e.Delta {
 			feasible = false
 		}
-		totalAlt += b - a
+		if e.Weight == 2 { // kept linear: no product of two symbolic values
+			total += 2 * (e.To.Layer - e.From.Layer)
+			totalAlt += 2 * (b - a)
+		} else {
+			total += e.To.Layer - e.From.Layer
+			totalAlt += b - a
+		}
 	}
 	if feasible {
 		vhReach("alternative-feasible")
